@@ -8,6 +8,7 @@ import (
 	"strings"
 
 	psatoken "github.com/veraison/psatoken"
+	"github.com/veraison/psatoken/encoding"
 	"github.com/veraison/psatoken/zzverif/simrt"
 )
 
@@ -46,12 +47,12 @@ type obsWorld struct{}
 func (obsWorld) Name() string { return "W-OBS" }
 
 var obsClaimCalls = []string{"validate", "g.profile", "g.cid", "g.lc", "g.impl", "g.seed", "g.cert", "g.sw", "g.nonce", "g.inst", "g.vsi",
-	"enc.cbor", "enc.json", "venc.cbor", "venc.json", "sw.deep"}
+	"enc.cbor", "enc.json", "venc.cbor", "venc.json", "sw.deep", "ser.cbor", "ser.json", "ser.tag"}
 var obsEvCalls = []string{"verify", "ev.json", "ev.instid", "ev.implid"}
 
 func (obsWorld) Gen(prop, tier string, idx int, r *Rng) *Trace {
 	var cfg ObsCfg
-	fams := []string{"p1", "p2", "p1", "p2", "xp2", "xp1", "xw"}
+	fams := []string{"p1", "p2", "p1", "p2", "xp2", "xp1", "xw", "xc"}
 	nClaims := r.Range(2, 5)
 	for i := 0; i < nClaims; i++ {
 		pf := fams[r.Intn(len(fams))]
@@ -169,6 +170,9 @@ var obsOrders = [][]string{
 
 func observe(c psatoken.IClaims, e *psatoken.Evidence, order []string, verifyRev bool) obsParts {
 	p := obsParts{}
+	// first, and through no method of the object: whatever an earlier read-side
+	// call did to an exported field shows here
+	p["struct"] = structObs(c)
 	for _, k := range order {
 		switch k {
 		case "getters":
@@ -266,7 +270,7 @@ func obsOrderFn(site, n int) []int {
 }
 
 func diffParts(a, b obsParts) string {
-	for _, k := range []string{"getters", "validate", "cbor", "json", "verify"} {
+	for _, k := range []string{"struct", "getters", "validate", "cbor", "json", "verify"} {
 		if a[k] != b[k] {
 			return fmt.Sprintf("%s:\n   was: %s\n   now: %s", k, a[k], b[k])
 		}
@@ -499,6 +503,16 @@ func readCall(l *obsLive, call string, key int) string {
 		case "venc.json":
 			b, e := psatoken.ValidateAndEncodeClaimsToJSON(c)
 			return fmt.Sprintf("%s/%s", b, okOrErr(e))
+		case "ser.cbor":
+			// the embedding-aware serialiser handed the caller's claims-set itself, not a copy
+			b, e := encoding.SerializeStructToCBOR(xem, c)
+			return fmt.Sprintf("%x/%s", b, okOrErr(e))
+		case "ser.json":
+			b, e := encoding.SerializeStructToJSON(c)
+			return fmt.Sprintf("%s/%s", b, okOrErr(e))
+		case "ser.tag":
+			tg, e := encoding.GetProfileJSONTag(c)
+			return fmt.Sprintf("%s/%s", tg, okOrErr(e))
 		case "sw.deep":
 			scs, e := c.GetSoftwareComponents()
 			s := ec(e)
